@@ -43,7 +43,8 @@ R2(e, M) == e.op = "donate" \/ \A t \in DOMAIN e.pre.vault :
               e.post.vault[t] - e.pre.vault[t] = Attributed(e.post, M, t) - Attributed(e.pre, M, t)
 R3(e, M) == \A m \in DOMAIN M : (\A k \in DOMAIN e.touched : e.touched[k] # m) => MarketView(e.post, m) = MarketView(e.pre, m)
 IsCreateOrClose(op) == op \in {"create_deposit", "close_deposit", "create_withdrawal", "close_withdrawal",
-                               "create_order", "close_order", "create_shift", "close_shift"}
+                               "create_order", "close_order", "create_shift", "close_shift",
+                               "create_increase", "close_increase", "create_decrease", "close_decrease"}
 R4(e) == IsCreateOrClose(e.op) => e.post = e.pre
 R5(e, M) == (e.op = "claim_fees" /\ e.ok) =>
               LET m == e.touched[1] IN
